@@ -1,4 +1,5 @@
 import Gv.Proofs.BagRef10
+import Gv.Proofs.BagRefExt
 /-!
 Names stay pairwise distinct (C01): every operation other than the caller's own name edits
 (`Rename`, `AppendSeqIdentifier`, `CleanNames`, `TrimNames`, `TrimNamesAuto`) keeps the names of a
@@ -212,5 +213,35 @@ theorem ni_stepOp {b : Bag} (h : NI b) (hr : Rect b) (op : Op) (hne : ¬ NameEdi
             · simp only [Option.some.injEq] at hrr; subst hrr
               exact h.keys (by simp only [mapSeqs]; rw [keys_map_seq (fun r => if fs then r.seq.drop n.toNat else r.seq.take (r.seq.length - n.toNat))]) rfl rfl
   | autoAlpha => exact h.congr rfl rfl rfl
+  | revcomp =>
+    exact h.keys (reverseComplement_keys b) (reverseComplement_fields b).1 (reverseComplement_fields b).2.1
+  | replaceChar name site c =>
+    simp only [Model.stepOp]
+    split
+    · exact h
+    · split
+      · exact h
+      · rename_i r hrr
+        rcases replaceChar_cases hrr with e | ⟨i, e⟩ <;> rw [e]
+        · exact h
+        · exact h.keys (by simp only []; rw [keys_setInRow]) rfl rfl
+  | rmGapSites num den ends =>
+    simp only [Model.stepOp]
+    split
+    · exact h
+    · split
+      · exact h
+      · rename_i r hrr
+        obtain ⟨k, i, n, _⟩ := removeGapSites_fields hrr
+        exact h.keys k i n
+  | compress =>
+    simp only [Model.stepOp]
+    split
+    · exact h
+    · split
+      · exact h
+      · rename_i r hrr
+        obtain ⟨k, i, n, _⟩ := compressBag_fields hrr
+        exact h.keys k i n
 
 end Gv.Proofs.BagAbs
